@@ -104,6 +104,16 @@ Theorem C06_readers_alone_finish :
      (RWPref.start [[RWPref.RL 1; RWPref.RL 0]; [RWPref.RL 0; RWPref.RL 1]]%nat)) = true.
 Proof. exact RWPref.readers_alone_finish. Qed.
 
+(* the semantics the model assumes, checked on the implementation (`vh lockorder pref`): a reader holds k and a writer
+   has called Lock(k): a second reader cannot enter (without the writer it could); when the first reader commits, all finish *)
+Theorem C06_writer_preference :
+  RWPref.enabled 2 (RWPref.run [0; 1]%nat (RWPref.start RWPref.pref_progs)) = false /\
+  RWPref.enabled 2 (RWPref.run [0]%nat (RWPref.start RWPref.pref_progs)) = true /\
+  RWPref.all_finished (RWPref.run [0; 1; 2; 0; 1; 1; 2; 2]%nat (RWPref.start RWPref.pref_progs)) = true.
+Proof.
+  destruct RWPref.writer_preference_blocks_reader as [A B]. exact (conj A (conj B RWPref.writer_preference_all_finish)).
+Qed.
+
 (* what a repair has to establish: if every command takes its key locks in one global order (strictly
    increasing keys), then NO schedule of ANY number of commands - readers, writers, writer preference
    included - ever reaches a state in which somebody is unfinished and nobody can move *)
